@@ -14,31 +14,11 @@ TR = 'impl Transport'
 LP = 'impl super::Protocol for Protocol'
 PINS = [
     # (file, scope, fn, units, call regex inside the generated fn blocks, why)
-    ('src/source.rs', '-', 'entry_from_fs_metadata', ['walk'], r'\bentry_from_fs_metadata\(', 'outcome fs_entry_ok: the metadata captured for a source entry (C01, C17)'),
-    ('src/blockdir.rs', '-', 'subdirs', ['blockdir'], r'\bsubdirs\(', 'the sub-directories of d/ that are listed (C14, C05); also pinned as an R7 chain'),
-    ('src/blockdir.rs', 'impl BlockDir', 'open', ['gc', 'validate', 'backupwriter', 'restore', 'combiner'], r'\bblock_dir\(\)|BlockDir::open\(', 'the present-block set is the listing at open time (C14, C09)'),
-    ('src/archive.rs', 'impl Archive', 'block_dir', ['gc', 'validate', 'backupwriter', 'restore'], r'\.block_dir\(\)', 'a FRESH BlockDir per call: its present-set is never stale (C09, C14)'),
-    ('src/compress/snappy.rs', 'impl Compressor', 'compress', ['blockdir', 'indexwriter'], r'\.compress\(', 'deterministic snappy encoding (C13, C17)'),
-    ('src/compress/snappy.rs', 'impl Decompressor', 'decompress', ['blockdir', 'readhunk'], r'\.decompress\(', 'Err rather than panic or invented bytes on garbage (C10)'),
+    # The functions that used to be pinned here (entry_from_fs_metadata, subdirs, BlockDir::open, Archive::block_dir,
+    # Compressor/Decompressor, SourceTree::{iter_entries, open_file}, Apath::below, the Transport dispatchers and the local
+    # back end's read/list_dir/metadata/remove_*/chdir) are now EXTRACTED and proved in units sourcemeta, blockopen and
+    # localread, with LINK wrappers to the callers' shims: a change there is judged by their own labelled clauses.
     ('src/gc_lock.rs', 'impl Drop for GarbageCollectionLock', 'drop', ['gc'], r'GarbageCollectionLock|\block\b', 'the lock file is removed only by the lock that created it (C07, C05)'),
-    ('src/source.rs', 'impl SourceTree', 'iter_entries', ['backupwriter'], r'\.iter_entries\(', 'the source walk handed to backup starts at the subtree with the caller\'s exclusions (C15, C01)'),
-    ('src/source.rs', 'impl SourceTree', 'open_file', ['backupwriter', 'combiner'], r'\.open_file\(', 'the file opened is the entry\'s own (C01)'),
-    ('src/apath.rs', 'impl Apath', 'below', ['restore', 'walk'], r'\.below\(', 'path below a root for an apath (C16)'),
-    (('src/transport.rs'), TR, 'read', T, r'\.read\(', 'dispatch to the protocol: the whole file or an error'),
-    (('src/transport.rs'), TR, 'list_dir', T, r'\.list_dir\(', 'dispatch to the protocol'),
-    (('src/transport.rs'), TR, 'write', T, r'\.write\(', 'dispatch to the protocol with the caller\'s WriteMode (C07)'),
-    (('src/transport.rs'), TR, 'create_dir', T, r'\.create_dir\(', 'dispatch to the protocol'),
-    (('src/transport.rs'), TR, 'metadata', T, r'\.metadata\(', 'dispatch to the protocol'),
-    (('src/transport.rs'), TR, 'is_file', T, r'\.is_file\(', 'metadata(..).kind == File, not-found => false (C03: completeness probes)'),
-    (('src/transport.rs'), TR, 'remove_file', T, r'\.remove_file\(', 'dispatch to the protocol (C05, C07)'),
-    (('src/transport.rs'), TR, 'remove_dir_all', T, r'\.remove_dir_all\(', 'dispatch to the protocol (C05, C07)'),
-    (('src/transport.rs'), TR, 'chdir', T, r'\.chdir\(', 'a transport onto the sub-directory'),
-    ('src/transport/local.rs', LP, 'read', T, r'\.read\(', 'local back end: reads the whole file (every property that reads the archive)'),
-    ('src/transport/local.rs', LP, 'list_dir', T, r'\.list_dir\(', 'local back end: every entry of the directory with its kind'),
-    ('src/transport/local.rs', LP, 'metadata', T, r'\.metadata\(|\.is_file\(', 'local back end: stat'),
-    ('src/transport/local.rs', LP, 'remove_file', T, r'\.remove_file\(', 'local back end: removes exactly that file'),
-    ('src/transport/local.rs', LP, 'remove_dir_all', T, r'\.remove_dir_all\(', 'local back end: removes exactly that directory'),
-    ('src/transport/local.rs', LP, 'chdir', T, r'\.chdir\(', 'local back end: sub-directory'),
 ]
 
 
